@@ -846,8 +846,8 @@ func main() {
 		}
 	}
 	type wrapped struct {
-		Input  *input         `json:"input"`
-		Origin string         `json:"origin"`
+		Input  *input `json:"input"`
+		Origin string `json:"origin"`
 	}
 	if cfg.Replay != "" {
 		b, err := os.ReadFile(cfg.Replay)
